@@ -34,7 +34,7 @@ KMID_MAX = 1e12
 
 def floors(tier):
     return {"updates_judged": 3000, "accepted": 1500, "rejected": 200, "evictions": 300, "dense_compared": 1500,
-            "used_matrices_checked": 300, "__nontrivial__": 30}
+            "used_matrices_checked": 300, "restarted_runs": 20, "__nontrivial__": 30}
 
 
 # ---------------------------------------------------------------------------
@@ -221,7 +221,7 @@ def cases(tier, seed):
     for i in range(nr):
         ps = gen.rand_spec(rng, RUN_FAMILIES, nmax=10)
         yield {"kind": "run", "problem": ps, "maxcor": int(rng.integers(1, 8)), "maxls": int(gen.pick(rng, [2, 3, 5, 20])),
-               "maxiter": int(rng.integers(8, 40))}
+               "maxiter": int(rng.integers(8, 40)), "restart_after": int(rng.integers(2, 7)) if i % 3 == 0 else 0}
 
 
 def run_direct(spec, out):
@@ -298,7 +298,16 @@ def run_real(spec, out):
     with probes.Intercept(M, ["update_lbfgs_matrices", "get_cauchy_point"], frame_vars=("X", "G"), on_event=None) as ic:
         # on_event needs ic in scope: attach after construction
         ic.on_event = on_event
-        tr = probes.run_min(P, cfg)
+        if spec.get("restart_after"):
+            # the same monitors keep watching while the run is continued from a checkpoint (restored history)
+            first = probes.run_min(P, dict(cfg, maxiter=spec["restart_after"]))
+            if first.exc is None and first.result.nit == spec["restart_after"]:
+                out.count("restarted_runs")
+                tr = probes.run_min(P, cfg, checkpoint=first.result, x0=np.array(first.result.x, dtype=float, copy=True))
+            else:
+                tr = first
+        else:
+            tr = probes.run_min(P, cfg)
     if ic.missing:
         out.count("probe_names_missing", len(ic.missing))
     for ev in ic.events:
